@@ -1036,7 +1036,7 @@ def c14(ck):
                    dl(0, "ge") + ";b:09", dl(3, "help опция"),
                    "40 64 1 d0 b:67652020;b:1b5b44;b:1b5b44;b:1b5b44;b:09;b:0d", "40 64 1 d4 b:6578;b:1b5b44;b:09;b:0d"]
     for k, s_ in enumerate(sets):
-        if thorough or k < 20:
+        if thorough or k < 22:
             # every write the generated help code makes (list of commands, every command's own help, nested sub-command help: usage line
             # with [COMMAND] / <COMMAND>, arguments, options, sub-command list) is failed once and for good
             decl_corpus.append(dl(k, "help"))
@@ -1675,7 +1675,7 @@ def c16(ck):
     for line in ["help", "help echo", "echo -h", "echo --help a", "x -vh", "he", "quiet -- -h"]:
         ses.append("24 32 1 raw b:%s;b:09;b:0d;b:1b5b41;b:1b5b42;b:0d" % gen.hx(line.encode()))
     for k, s_ in enumerate(sets):
-        if k < (len(sets) if thorough else 20):
+        if k < (len(sets) if thorough else 22):
             lines = [declgen.rand_decl_line(rng, s_) for _ in range(6)] + ["help", declgen.q((declgen.all_names(s_) or ["x"])[0]) + " --help"]
             ses.append(lines_to_session(k, lines, cap=100))
             # every command with nothing after its name, and with every positional but the last: "missing required argument" by its
